@@ -9,6 +9,9 @@
  *   T<h>  C<h>      uv_fs_event_stop, uv_close
  *   Xw<p> Xm<p>,<mode> Xc<p> Xu<p> Xr<p>,<q> Xd<p>   write / chmod / create / unlink or rmdir /
  *                   rename p -> q / mkdir
+ *   O               observe: per handle active flag, uv_fs_event_getpath (path index or -), wd
+ *   Y ... P         fork(): the child calls uv_loop_fork(), observes, runs the operations up to P and
+ *                   exits; the parent waits for it and goes on after P
  *   R               uv_run(UV_RUN_NOWAIT)
  *   Z               close everything, run, uv_loop_close
  * Output tokens: r<code>  w<wd>  m<wd>  g ... . (one iteration)  e<wd>,<mask>,<name or ->  c<h>,<cb>,<name>,<bits>  x<h>  z<rc>
@@ -22,6 +25,7 @@
 #include <errno.h>
 #include <sys/stat.h>
 #include <sys/inotify.h>
+#include <sys/wait.h>
 #include "uv.h"
 #include "uv-common.h"
 
@@ -94,6 +98,26 @@ static void change(const char* tok) {
   }
 }
 
+static _Atomic long live_allocs;
+static void* c_malloc(size_t n) { void* p = malloc(n); if (p) live_allocs++; return p; }
+static void* c_calloc(size_t a, size_t b) { void* p = calloc(a, b); if (p) live_allocs++; return p; }
+static void* c_realloc(void* q, size_t n) { void* p = realloc(q, n); if (q == NULL && p) live_allocs++; return p; }
+static void c_free(void* p) { if (p) { live_allocs--; free(p); } }
+static int in_child;
+
+static void observe(void) {
+  int j, k;
+  printf("o");
+  for (j = 0; j < nh; j++) {
+    char buf[700]; size_t sz = sizeof buf; int pid = -1;
+    int a = H[j]->closed ? 0 : uv_is_active((uv_handle_t*) &H[j]->h);
+    if (!H[j]->closed && uv_fs_event_getpath(&H[j]->h, buf, &sz) == 0)
+      for (k = 0; k < NP; k++) if (strcmp(buf, pathname[k]) == 0) pid = k;
+    printf("%d:%d:%d,", a, pid, a ? H[j]->h.wd : -1);
+  }
+  printf(" ");
+}
+
 static void do_ops(char* ops, int in_cb) {
   char* save = NULL; char* tok;
   for (tok = strtok_r(ops, " \n", &save); tok; tok = strtok_r(NULL, " \n", &save)) {
@@ -117,6 +141,28 @@ static void do_ops(char* ops, int in_cb) {
         H[i]->closing = 1; printf("k "); uv_close((uv_handle_t*) &H[i]->h, close_cb);
       }
       break;
+    case 'O': observe(); break;
+    case 'Y':
+      if (!in_cb && !in_child) {
+        pid_t pid; int st = 0;
+        fflush(stdout);
+        pid = fork();
+        if (pid == 0) {
+          in_child = 1;
+          printf("y%d ", uv_loop_fork(&loop));
+          observe();
+        } else {
+          waitpid(pid, &st, 0);
+          if (!WIFEXITED(st) || WEXITSTATUS(st) != 0) printf("!%d ", st);
+          /* skip the child's part of the script */
+          while ((tok = strtok_r(NULL, " \n", &save)) != NULL && tok[0] != 'P') {}
+          if (tok == NULL) return;
+        }
+      }
+      break;
+    case 'P':
+      if (in_child) { printf("P "); fflush(stdout); _exit(0); }
+      break;
     case 'X': if (!in_cb) change(tok); break;
     case 'R': if (!in_cb) { printf("g "); uv_run(&loop, UV_RUN_NOWAIT); printf(". "); } break;
     case 'Z':
@@ -124,7 +170,7 @@ static void do_ops(char* ops, int in_cb) {
         int j;
         for (j = 0; j < nh; j++) if (!H[j]->closing) { H[j]->closing = 1; printf("k "); uv_close((uv_handle_t*) &H[j]->h, close_cb); }
         printf("g "); uv_run(&loop, UV_RUN_NOWAIT); printf(". ");
-        printf("z%d ", uv_loop_close(&loop));
+        { int rc = uv_loop_close(&loop); printf("z%d,%ld ", rc, (long) live_allocs); }
       }
       break;
     }
@@ -144,6 +190,7 @@ int main(int argc, char** argv) {
     char* p2 = strchr(line, ';');
     if (!p2) { printf("\n"); return 0; }
     *p2++ = 0;
+    uv_replace_allocator(c_malloc, c_realloc, c_calloc, c_free);
     uv_loop_init(&loop); loop_ready = 1;
     {
       char* s = p2;
